@@ -50,14 +50,31 @@ func (c *Chain) PrimeBlockCache() lib.ErrorI {
 // CommitCertificate call SetRootDexCache, and the certificate may carry a root-chain view and
 // be signed by a root-chain committee.
 func (c *Chain) StepX(s BlockSpec, o StepOpts) (*Committed, lib.ErrorI) {
-	c.FSM.Reset()
-	c.FSM.SetRootDexCache(o.RootDex) // Copy() hands the same pointer to the proposer's copy
-	blk, res, err := c.Propose(s)
-	if err != nil {
+	var blk *lib.Block
+	var failed []*lib.FailedTx
+	var err lib.ErrorI
+	if s.Strict {
+		// replica semantics only (what ValidateProposal / CommitCertificate do): a failing tx fails the block
+		lastQC, e := c.LastQC()
+		if e != nil {
+			return nil, e
+		}
+		t := s.Time
+		if t == 0 {
+			t = 1_700_000_000_000_000 + c.Height()*1_000_000
+		}
+		blk = &lib.Block{BlockHeader: &lib.BlockHeader{Time: t, ProposerAddress: Addr(BLS(s.Proposer)).Bytes(), LastQuorumCertificate: lastQC}, Transactions: s.Txs}
+	} else {
 		c.FSM.Reset()
-		return nil, err
+		c.FSM.SetRootDexCache(o.RootDex) // Copy() hands the same pointer to the proposer's copy
+		var res *lib.ApplyBlockResults
+		blk, res, err = c.Propose(s)
+		if err != nil {
+			c.FSM.Reset()
+			return nil, err
+		}
+		failed = res.Failed
 	}
-	failed := res.Failed
 	// --- replica side: mirror of CommitBlock with the cache restored after Reset
 	c.FSM.Reset()
 	c.FSM.SetRootDexCache(o.RootDex)
@@ -127,4 +144,32 @@ func (c *Chain) StepX(s BlockSpec, o StepOpts) (*Committed, lib.ErrorI) {
 	cm := &Committed{Height: hdr.Height, Block: blk, BlockResult: br, QC: qc, Root: root, Failed: failed}
 	c.Committed[hdr.Height] = cm
 	return cm, nil
+}
+
+// IsFailedTxs reports whether err is the "block contains a failing transaction" error of the strict path.
+func IsFailedTxs(err lib.ErrorI) bool {
+	return err != nil && err.Code() == lib.ErrFailedTransactions().Code() && err.Module() == lib.ErrFailedTransactions().Module()
+}
+
+// StepFast commits the next block with ONE ApplyBlock when every transaction succeeds (replica
+// semantics, Strict) and falls back to the proposer path (failing txs dropped, then replica
+// semantics) when one fails. The committed block is the same either way; only the proposer's
+// private dry run is skipped.
+func (c *Chain) StepFast(s BlockSpec, o *StepOpts) (*Committed, lib.ErrorI) {
+	s.Strict = true
+	var cm *Committed
+	var err lib.ErrorI
+	if o != nil {
+		cm, err = c.StepX(s, *o)
+	} else {
+		cm, err = c.Step(s)
+	}
+	if err == nil || !IsFailedTxs(err) {
+		return cm, err
+	}
+	s.Strict = false
+	if o != nil {
+		return c.StepX(s, *o)
+	}
+	return c.Step(s)
 }
